@@ -27,6 +27,9 @@ type Config struct {
 	DenyConn  []string    `json:"deny_conn"` // client ids refused by the authentication hook
 	// Scripted hooks (C19): each entry is one hook in registration order.
 	Scripted []ScriptedHook `json:"scripted"`
+	// the last Late scripted hooks are not attached when the broker is built but by the op "late_hook", while a packet is
+	// being handled (during the hook's Init)
+	Late int `json:"late"`
 }
 
 // ScriptedHook describes one test hook of a stack (C19).
